@@ -18,6 +18,7 @@ DECIDES = ('grid, quad and triangle index arithmetic follows the sample grid lay
            'strided sample for sample sizes 2..13 (thorough: 2..40), square and non-square, every spacing dividing size - 1. every surface of a container gets its own tessellator object (IV7). the container forces its elements to be numbered afresh before it adds the running id offsets to their vertices and faces (OFF1); every shipped tessellator accepts the keywords Surface.tessellate passes and gives its vertices their parameters (TK1); the vertex pass and the triangle pass of the trimming tessellator read and set the same sticky flags in the same branches (TR1); vertices are re-evaluated on every path that tessellates (TV1); each vertex object occurs once with ids 0..N-1 also when the tessellation function hands grid vertices back (FN2, SKEL); no mesh element caches values derived from its vertices (IV5); the mesh exporters copy sample sizes per direction (AXK). the (u, v) stored in the vertices are mapped onto the surface domain before re-evaluation, or only normalised surfaces are re-evaluated (TV2: known finding on the pinned tree - tessellation assumes the unit square).')
 NOT_DECIDED = 'Euler characteristic, orientation, exact tiling, that vertex positions equal the surface (needs C01), trimmed region vs cell size, normals\' direction: geometric/numerical.'
 TECHNIQUE = 'stride rule on preallocated arrays, axis tags, writer structure rules, branch equivalence; bounded index-skeleton interpretation'
+DECIDES += (" [ABSTRACT INTERPRETATION] MSH2: make_triangle_mesh on labelled grids of every size and admissible spacing gives vertex k of the strided grid the input point, the parametric position and the id of its own grid position and hands every cell's corners (a,b), (a+1,b), (a+1,b+1), (a,b+1) to the tessellation function once; MX2: the OBJ / OFF / ASCII-STL text produced for an abstract container of three surfaces with different vertex counts parses back to every vertex once in surface order, faces that refer to the vertices of their own surface and (OFF) the declared counts (LY1p, QC1, PJ1, FN1, AG6 only corroborate).")
 
 
 def site(fi, node=None):
